@@ -736,8 +736,9 @@ class TimeArray(TimeBase):
 
         if isinstance(other, TimeDeltaArray):
             # time + timedelta
-            jd2 = self.jd2 + other.days
-            return self.from_jds(self.jd1, jd2, self.fmt)
+            jd1 = self.jd1 + other.jd1
+            jd2 = self.jd2 + other.jd2
+            return self.from_jds(jd1, jd2, self.fmt)
 
         elif isinstance(other, TimeArray):
             # time1 + time2 does not make sense
